@@ -49,9 +49,57 @@ package jp
 // Index fragment on a plain array: exactly the element the index denotes is read (negative from the end), and
 // nothing is read when the index denotes no element.
 //@ func (Expr).Get
+//@   opt forkappend = true
+//@   opt mergegoals = true
 //@   region nthAny = case Nth > case []any
 //@     let i0 = i
 //@     let has0 = has
 //@     let v0 = v
 //@     assert [C05 C11 nth] spec.NormIndex(i0, len(tv)) >= 0 ==> has && v == tv[spec.NormIndex(i0, len(tv))]
 //@     assert [C05 C11 nth] spec.NormIndex(i0, len(tv)) < 0 ==> has == has0 && v == v0
+
+// Slice fragment on a plain array. lo/hi are the documented bounds (start inclusive, end exclusive, negatives from
+// the end); the forward progression is lo, lo+step, ... < hi, the downward one lo, lo+step, ... > hi (step < 0).
+//@   region sliceTop = case Slice
+//@   region sliceAny = case Slice > case []any
+//@     parent sliceTop
+//@     let start0 = start
+//@     let end0 = end
+//@     let n = len(tv)
+//@     let lo = spec.SliceLo(start, len(tv))
+//@     let hi = spec.SliceHi(end, len(tv))
+//@     let hid = spec.SliceHiDown(end, len(tv))
+//@     let L0 = len(results)
+//@     let R0 = snap(results)
+//@     let S0 = len(stack)
+//@     let last0 = int(fi) == len(x) - 1
+//@     assume step != 0
+//@     assume [C05 C06 slice-step-magnitude] -1099511627776 <= step && step <= 1099511627776
+//@     assert [C05 C11 slice-none] !(lo < n) ==> len(results) == L0 && len(stack) == S0
+//@     assert [C05 C11 slice-fwd] step > 0 && last0 && lo < n ==> len(results) >= L0 && len(stack) == S0
+//@          && (len(results) > L0 ==> results[len(results)-1] == tv[lo + (len(results) - L0 - 1)*step] && lo + (len(results) - L0 - 1)*step < hi)
+//@          && lo + (len(results) - L0)*step >= hi
+//@          && (forall j: 0 <= j && j < L0 ==> results[j] == R0[j])
+//@     assert [C05 C11 slice-down] step < 0 && last0 && lo < n ==> len(results) >= L0 && len(stack) == S0
+//@          && (len(results) > L0 ==> results[len(results)-1] == tv[lo + (len(results) - L0 - 1)*step] && lo + (len(results) - L0 - 1)*step > hid)
+//@          && lo + (len(results) - L0)*step <= hid
+//@          && (forall j: 0 <= j && j < L0 ==> results[j] == R0[j])
+//@     assert [C05 C11 slice-inner] !last0 ==> len(results) == L0
+//@     loop 0
+//@       invariant [C05 C11 slice-fwd] lo < n && step > 0 && start == lo && end == hi && len(stack) == S0 && len(results) >= L0 && 0 <= i
+//@       invariant [C05 C11 slice-fwd] i == lo + (len(results) - L0)*step
+//@       invariant [C05 C11 slice-fwd] len(results) > L0 ==> results[len(results)-1] == tv[i - step] && i - step < hi
+//@       invariant [C05 C11 slice-fwd] forall j: 0 <= j && j < L0 ==> results[j] == R0[j]
+//@     loop 1
+//@       entry [C05 C11 slice-inner-empty] hi <= lo ==> i < start
+//@       entry [C05 C11 slice-inner] lo < hi ==> lo <= i && i < hi && hi <= i + step && (i - lo) % step == 0
+//@       invariant [C05 C11 slice-inner] lo < n && step > 0 && start == lo && len(results) == L0 && i < n
+//@     loop 2
+//@       invariant [C05 C11 slice-down] lo < n && step < 0 && start == lo && end == hid && len(stack) == S0 && len(results) >= L0 && i < n
+//@       invariant [C05 C11 slice-down] i == lo + (len(results) - L0)*step
+//@       invariant [C05 C11 slice-down] len(results) > L0 ==> results[len(results)-1] == tv[i - step] && i - step > hid
+//@       invariant [C05 C11 slice-down] forall j: 0 <= j && j < L0 ==> results[j] == R0[j]
+//@     loop 3
+//@       entry [C05 C11 slice-inner-empty] lo <= hid ==> start < i
+//@       entry [C05 C11 slice-inner] hid < lo ==> hid < i && i <= lo && i + step <= hid && (lo - i) % (0 - step) == 0
+//@       invariant [C05 C11 slice-inner] lo < n && step < 0 && start == lo && len(results) == L0 && -1 < i
